@@ -1,0 +1,12 @@
+//go:build !verif
+
+package verifhook
+
+// Enabled reports whether the hooks are compiled in.
+const Enabled = false
+
+// Emit records an event. It does nothing in this build.
+func Emit(event string, args ...any) {}
+
+// Gate marks a scheduling point. It does nothing in this build.
+func Gate(point string) {}
